@@ -9,8 +9,8 @@ META = dict(
     level_note='Trusted: translator, shims, CBMC; floating-point expression trees are compared by structure (same operator tree on the '
                'same operands), so an algebraically equal re-association is reported as undecided after native replay, not as a violation; '
                'Surface::local_value and NaturalCoordinate::get_surface_point are contract stubs (any value).',
-    scope='get_temperature of uniform / adiabatic / linear for continental plate, oceanic plate, mantle layer, subducting plate, fault; chapman geotherm; uniform raw velocity of the area features',
-    not_covered=['tian2019 water content, mass conserving slab temperature, random models (no closed form documented)'],
+    scope='get_temperature of uniform / adiabatic / linear for continental plate, oceanic plate, mantle layer, subducting plate, fault; chapman geotherm; plume uniform temperature; uniform raw velocity and uniform grains of the area features; smooth composition of the subducting plate (uniform composition of all families: C02); the ridge look-up Utilities::calculate_ridge_distance_and_spreading behind half-space / plate cooling',
+    not_covered=['tian2019 water content, mass conserving slab temperature, random models (no closed form documented)', 'the error-function / Fourier-sum bodies of the half-space, plate and constant-age plate models and the gaussian plume (std::upper_bound, loops over 100 terms)', 'fault smooth composition: its expression ((center - side)*S, signed distance) does not obviously match the parameter descriptions - not brought under contract, nothing claimed'],
     enforced_elsewhere={},
 )
 
@@ -91,6 +91,33 @@ UNITS.append(dict(
                                    '__CPROVER_loop_invariant(g_seen == (g_k < i_coordinate) && distance_ridge >= 0.0)\n'
                                    '__CPROVER_loop_invariant(g_seen ==> (distance_ridge <= g_cdk1 && distance_ridge <= g_cdk2))\n'
                                    '__CPROVER_decreases(g_nseg - (unsigned long)i_coordinate)')}))
+
+# smooth composition of the subducting plate
+_sfn = 'Features_SubductingPlateModels_Composition_Smooth_get_composition'
+UNITS.append(dict(
+    name='subducting_plate_C_smooth', enforce=_sfn, contracts='c05_slab_smooth.c', harness='h_slab_smooth',
+    targets=[dict(tu='source/world_builder/features/subducting_plate_models/composition/smooth.cc',
+                  qual='WorldBuilder::Features::SubductingPlateModels::Composition::Smooth::get_composition')],
+    defines={'MAXP': 4, 'WB_VEC_CAP': 2, 'WB_CAP_vec_uint': 4, 'WB_CAP_vec_double': 4}, defines_thorough={'MAXP': 16, 'WB_CAP_vec_uint': 16, 'WB_CAP_vec_double': 16},
+    expect_fail=['REACHABILITY-GUARD'], outline_fp='all',
+    loops={(_sfn, 1): dict(contract='__CPROVER_assigns(i)\n'
+                                    '__CPROVER_loop_invariant(i <= this_->compositions.n && (g_listed ==> i <= g_first))\n'
+                                    '__CPROVER_decreases(this_->compositions.n - i)')}))
+
+# uniform grains model of the area features (also what C15 says about fixed / normalised grain sizes)
+for _fam, _fdir in [('ContinentalPlate', 'continental_plate'), ('OceanicPlate', 'oceanic_plate'), ('MantleLayer', 'mantle_layer')]:
+    _gfn = 'Features_%sModels_Grains_Uniform_get_grains' % _fam
+    UNITS.append(dict(
+        name='%s_G_uniform' % _fdir, enforce=_gfn, contracts='c05_grains_uniform.c', harness='h_grains_uniform',
+        targets=[dict(tu='source/world_builder/features/%s_models/grains/uniform.cc' % _fdir,
+                      qual='WorldBuilder::Features::%sModels::Grains::Uniform::get_grains' % _fam)],
+        stub=['Objects_Surface_local_value', 'Objects_NaturalCoordinate_get_surface_point'], nothrow=['Objects_NaturalCoordinate_get_surface_point'],
+        replace=['Objects_Surface_local_value', 'Objects_NaturalCoordinate_get_surface_point'],
+        defines={'FAM': _fam, 'MAXP': 4, 'WB_VEC_CAP': 2, 'WB_CAP_vec_uint': 4, 'WB_CAP_vec_double': 4, 'WB_CAP_vec_arr_arr_double_3_3': 4},
+        expect_fail=['REACHABILITY-GUARD'], outline_fp='all',
+        loops={(_gfn, 1): dict(contract='__CPROVER_assigns(i)\n'
+                                        '__CPROVER_loop_invariant(i <= this_->compositions.n && (g_listed ==> i <= g_first))\n'
+                                        '__CPROVER_decreases(this_->compositions.n - i)')}))
 
 def adiab(z, tp=TP, alpha=ALPHA, cp=CP):
     return tp * math.exp(alpha * G * z / cp)
@@ -258,6 +285,8 @@ def ridge_oracle(work):
 def native_oracle(witness, work, search_seed=None):
     if witness.get('unit') == 'ridge_distance':
         return ridge_oracle(work)
+    if witness.get('unit'):
+        return dict(status='no-native-oracle', detail='no replay oracle for unit %s' % witness['unit'])
     fdir, kind = witness.get('family', 'continental_plate'), witness.get('kind', 'linear')
     if fdir == 'fault':
         return fault_oracle(kind, work, random.Random(search_seed if search_seed is not None else 1))
